@@ -23,7 +23,10 @@ META = {
     'rule': ('histories (<= 14 steps) of set_location(loc) and SetContextState proposals (new / update / associate / '
              'disassociate / re-associate an old state / several states at once / two associated states / unknown state '
              'handle) on tests/mdib_two_mds.xml with the tutorial role providers; non-trivial = >= 3 association changes '
-             'on one descriptor, or a proposal touching >= 2 states; distinct by history'),
+             'on one descriptor, or a proposal touching >= 2 states; distinct by history. part sched: 2-3 concurrent '
+             'context changes (SetContextState by different consumers processed in the request thread, set_location by '
+             'the application) after a short history, interleaved at lock granularity by the cooperative scheduler; '
+             'invariants judged on per-MdibVersion snapshots; non-trivial = >= 2 task switches'),
     'assumptions': ['the SetContextState operation of the fixture targets the patient context; location changes go through '
                     'SdcProvider.set_location'],
 }
@@ -148,6 +151,43 @@ class Runner:
                         out.append((f'{P}/report-differs/{attr}', f'report says {attr}={got} for {h}, table has {want}'))
         return out
 
+    def build_proposals(self, client, specs):
+        """-> (proposed states, Counter of proposed associated states per descriptor, contains an unknown state handle)"""
+        mdib = self.mdib
+        proposals = []
+        assoc_count = collections.Counter()
+        unknown = False
+        used = set()
+        pm = mdib.data_model.pm_types
+        for p in specs:
+            t = p['target']
+            target_descr = self.ctx_descriptors[p.get('descr', 0) % len(self.ctx_descriptors)]
+            if target_descr != self.op_target:
+                self.other_descr = True
+            existing = sorted(s.Handle for s in mdib.context_states.objects if s.DescriptorHandle == target_descr)
+            if t == 'new' or (isinstance(t, int) and not existing):
+                st_ = client.mk_proposed_context_object(target_descr)
+            elif t == 'unknown':
+                st_ = client.mk_proposed_context_object(target_descr)
+                st_.Handle = 'vf_no_such_state'  # differs from the descriptor handle: an update of an unknown state
+                unknown = True
+            else:
+                h = existing[t % len(existing)]
+                if h in used:
+                    continue
+                used.add(h)
+                st_ = client.mk_proposed_context_object(target_descr, h)
+            assoc = p['assoc']
+            if st_.ContextAssociation.value == 'Assoc' and assoc in ('No', 'Pre'):
+                assoc = 'Dis'  # an associated context can only be left by disassociating it (BICEPS life cycle)
+            st_.ContextAssociation = pm.ContextAssociation(assoc)
+            if p['given'] is not None and hasattr(st_, 'CoreData'):
+                st_.CoreData.Givenname = p['given']
+            if assoc == 'Assoc':
+                assoc_count[target_descr] += 1
+            proposals.append(st_)
+        return proposals, assoc_count, unknown
+
     def step(self, step):
         mdib = self.mdib
         before = C.canon_mdib(mdib)
@@ -161,38 +201,7 @@ class Runner:
             result_state = None
         else:
             client = self.consumer.client('Context')
-            proposals = []
-            assoc_count = collections.Counter()
-            unknown = False
-            used = set()
-            pm = mdib.data_model.pm_types
-            for p in step[1]:
-                t = p['target']
-                target_descr = self.ctx_descriptors[p.get('descr', 0) % len(self.ctx_descriptors)]
-                if target_descr != self.op_target:
-                    self.other_descr = True
-                existing = sorted(s.Handle for s in mdib.context_states.objects if s.DescriptorHandle == target_descr)
-                if t == 'new' or (isinstance(t, int) and not existing):
-                    st_ = client.mk_proposed_context_object(target_descr)
-                elif t == 'unknown':
-                    st_ = client.mk_proposed_context_object(target_descr)
-                    st_.Handle = 'vf_no_such_state'  # differs from the descriptor handle: an update of an unknown state
-                    unknown = True
-                else:
-                    h = existing[t % len(existing)]
-                    if h in used:
-                        continue
-                    used.add(h)
-                    st_ = client.mk_proposed_context_object(target_descr, h)
-                assoc = p['assoc']
-                if st_.ContextAssociation.value == 'Assoc' and assoc in ('No', 'Pre'):
-                    assoc = 'Dis'  # an associated context can only be left by disassociating it (BICEPS life cycle)
-                st_.ContextAssociation = pm.ContextAssociation(assoc)
-                if p['given'] is not None and hasattr(st_, 'CoreData'):
-                    st_.CoreData.Givenname = p['given']
-                if assoc == 'Assoc':
-                    assoc_count[target_descr] += 1
-                proposals.append(st_)
+            proposals, assoc_count, unknown = self.build_proposals(client, step[1])
             if not proposals:
                 return
             if len(proposals) >= 2:
@@ -233,6 +242,146 @@ class Runner:
         return self.findings
 
 
+# ------------------------------------------------------------------------- part: concurrent context changes (scheduler)
+def st_sched_case():
+    """A short sequential history, then 2-3 concurrent context changes (SetContextState invocations by different
+    consumers, processed in the request thread, and set_location by the application) under the cooperative scheduler."""
+    proposal = st.fixed_dictionaries({
+        'target': st.one_of(st.just('new'), st.integers(0, 5)), 'assoc': st.sampled_from(['Assoc', 'Assoc', 'Dis', 'No']),
+        'given': st.one_of(st.none(), st.sampled_from(['Ann', 'Bob'])), 'descr': st.sampled_from([0, 0, 1, 1, 2])})
+    task = st.one_of(st.tuples(st.just('set_ctx'), st.lists(proposal, min_size=1, max_size=2)).map(list),
+                     st.tuples(st.just('set_location'), MP.st_location()).map(list))
+    return st.fixed_dictionaries({
+        'setup': st.lists(st.one_of(st.tuples(st.just('set_location'), MP.st_location()).map(list),
+                                    st.tuples(st.just('set_ctx'), st.lists(proposal, min_size=1, max_size=1)).map(list)),
+                          max_size=3),
+        'tasks': st.lists(task, min_size=2, max_size=3),
+        'choices': st.lists(st.integers(0, 3), max_size=12)})
+
+
+def ctx_snapshot(mdib):
+    return {s.Handle: (s.DescriptorHandle, str(s.ContextAssociation.value), s.BindingMdibVersion, s.UnbindingMdibVersion,
+                       s.BindingStartTime, s.BindingEndTime) for s in mdib.context_states.objects}
+
+
+def judge_versions(snaps: dict, label: str):
+    """The listed invariants over consecutive per-version snapshots {MdibVersion: {state handle: (...)}}."""
+    out = []
+    versions = sorted(snaps)
+    for v_prev, v in zip(versions, versions[1:]):
+        prev, now = snaps[v_prev], snaps[v]
+        by_descr = {}
+        for h, (d, assoc, *_rest) in now.items():
+            if assoc == 'Assoc':
+                by_descr.setdefault(d, []).append(h)
+        for d, hs in by_descr.items():
+            if len(hs) > 1:
+                out.append((f'{P}/two-associated/{label}', f'descriptor {d} has associated states {sorted(hs)} at MdibVersion {v}'))
+        for h, (d, assoc, bv, uv, bst, bet) in now.items():
+            before = prev.get(h, (d, None))[1]
+            if before == 'Assoc' and assoc != 'Assoc':
+                if assoc != 'Dis':
+                    out.append((f'{P}/left-association-not-disassociated/{label}', f'state {h} is {assoc!r} at MdibVersion {v}'))
+                elif uv is None or bet is None:
+                    out.append((f'{P}/unbinding-not-set/{label}', f'state {h} at MdibVersion {v}: UnbindingMdibVersion={uv} '
+                                                                  f'BindingEndTime={bet}'))
+                elif uv != v:
+                    out.append((f'{P}/unbinding-version-wrong/{label}',
+                                f'state {h} stopped being associated at MdibVersion {v}, UnbindingMdibVersion is {uv}'))
+            if before != 'Assoc' and assoc == 'Assoc':
+                if bv is None or bst is None:
+                    out.append((f'{P}/binding-not-set/{label}', f'state {h} at MdibVersion {v}: BindingMdibVersion={bv} '
+                                                                f'BindingStartTime={bst}'))
+                elif bv != v:
+                    out.append((f'{P}/binding-version-wrong/{label}',
+                                f'state {h} became associated at MdibVersion {v}, BindingMdibVersion is {bv}'))
+    return out
+
+
+def sched_case(ctx, case):
+    from sdc11073.location import SdcLocation
+
+    from vf import sched as S
+    r = Runner()
+    findings = []
+    switches = 0
+    try:
+        r.consumers = [(r.consumer, r.cmdib)] + [r.world.add_consumer(init_mdib=True) for _ in range(2)]
+        for step in case['setup']:
+            r.step(step)
+        if r.findings:
+            return []  # (the sequential part is judged by the history part)
+        # SetContextState is processed in the thread of the request
+        for reg in r.world.provider._sco_operations_registries.values():  # noqa: SLF001
+            for op in reg._registered_operations.values():  # noqa: SLF001
+                op.delayed_processing = False
+        mdib = r.mdib
+        sched = S.Sched(case['choices'], default='continue')
+        snaps = {mdib.mdib_version: ctx_snapshot(mdib)}
+
+        def record(_lock):
+            snaps.setdefault(mdib.mdib_version, ctx_snapshot(mdib))
+        saved = [(mdib, 'mdib_lock', mdib.mdib_lock), (mdib, '_tr_lock', mdib._tr_lock)]  # noqa: SLF001
+        tables = []
+        mdib.mdib_lock = S.SchedLock(sched, 'mdib_lock', on_release=record)
+        mdib._tr_lock = S.SchedLock(sched, 'tr_lock', reentrant=False, yield_when_free=False, yield_after_release=False)  # noqa: SLF001
+        from vf.props import c07
+        for name in ('descriptions', 'states', 'context_states'):
+            table = getattr(mdib, name)
+            tables.append((table, table._lock))  # noqa: SLF001
+            c07.Runner._set_table_lock(table, S.SchedLock(sched, f'{name}.lock', yield_when_free=False,  # noqa: SLF001
+                                                          yield_after_release=False))
+        futures = []
+        n_ctx = 0
+        try:
+            for i, task in enumerate(case['tasks']):
+                if task[0] == 'set_location':
+                    loc = SdcLocation(**task[1])
+                    sched.spawn(f't{i}-loc', lambda loc=loc: r.world.provider.set_location(
+                        loc, publish_now=False, location_context_descriptor_handle=r.loc_descr))
+                    continue
+                consumer = r.consumers[n_ctx % len(r.consumers)][0]
+                n_ctx += 1
+                client = consumer.client('Context')
+                proposals = r.build_proposals(client, task[1])[0]
+                if not proposals:
+                    continue
+
+                def invoke(client=client, proposals=proposals):
+                    try:
+                        futures.append(client.set_context_state(r.op_handle, proposals))
+                    except Exception as ex:  # noqa: BLE001
+                        if not R.exc_in_library(ex):
+                            raise
+                sched.spawn(f't{i}-ctx', invoke)
+            if len(sched.tasks) >= 2:  # noqa: PLR2004
+                sched.run()
+                for t in sched.tasks:
+                    if t.exc is not None and not R.exc_in_library(t.exc):
+                        raise t.exc
+                switches = sum(1 for a, b in zip(sched.trace, sched.trace[1:]) if a[0] != b[0])
+        finally:
+            for obj, name, value in saved:
+                setattr(obj, name, value)
+            for table, lock in tables:
+                c07.Runner._set_table_lock(table, lock)  # noqa: SLF001
+        snaps.setdefault(mdib.mdib_version, ctx_snapshot(mdib))
+        findings = judge_versions(snaps, 'concurrent')
+        handles = [s.Handle for s in mdib.context_states.objects]
+        if len(handles) != len(set(handles)):
+            findings.append((f'{P}/duplicate-state-handle/concurrent', f'{sorted(h for h in handles if handles.count(h) > 1)[:3]}'))
+    finally:
+        r.close()
+    ctx.case(case, switches >= 2 and len(case['tasks']) >= 2, 'sched',  # noqa: PLR2004
+             classes=tuple(sorted({t[0] for t in case['tasks']})) + (f'switches>={min(switches, 3)}',))
+    return findings
+
+
+def shard_sched(ctx, n):
+    W.quiet_logging()
+    R.hyp_campaign(ctx, 'sched', st_sched_case(), lambda c: sched_case(ctx, c), n)
+
+
 def case_fn(ctx, history):
     r = Runner()
     try:
@@ -250,12 +399,20 @@ def shard(ctx, n):
     R.hyp_campaign(ctx, 'history', st_history(), lambda h: case_fn(ctx, h), n)
 
 
+def shard_any(ctx, which, n):
+    (shard_sched if which == 'sched' else shard)(ctx, n)
+
+
 def run(ctx):
-    R.run_shards(ctx, __name__, 'shard', [(40 if ctx.tier == 'quick' else 500,)] * R.NPROC)
+    q = ctx.tier == 'quick'
+    # both parts side by side, so that a loaded machine shortens both instead of dropping the second
+    R.run_shards(ctx, __name__, 'shard_any', [('history', 52 if q else 650)] * 12 + [('sched', 50 if q else 900)] * 4)
 
 
 def replay(part, case):
     W.quiet_logging()
+    if part == 'sched':
+        return sched_case(R.Ctx(P, 'quick', 0, {}), case)
     r = Runner()
     try:
         return r.run(case)
